@@ -2,6 +2,7 @@
 import json
 import os
 import re
+import shutil
 
 from . import common
 
@@ -201,12 +202,43 @@ def _run(ctx, g16_problem):
     def smallest(cases):
         return min(cases, key=lambda kc: len(json.dumps(kc[1])))
 
+    # An end-to-end connection that fails alone in its class is run again on its own (a fresh proxy, origin and
+    # client, nothing else in flight) before it is reported: up to 3 times, any failure counts.  A defect that a
+    # scenario exhibits fails again; scheduling and socket accidents of a loaded machine do not.  What is not
+    # reproduced is kept in the evidence notes together with its replay file, never silently dropped.
+    def fails_alone(kind, case):
+        if hb is None or ctx.replay:
+            return True
+        d = os.path.join(ctx.work, "solo")
+        for attempt in range(3):
+            shutil.rmtree(d, ignore_errors=True)
+            os.makedirs(d)
+            inner = os.path.join(d, "replay_in.json")
+            json.dump(dict(kind=kind, case=case.get("case", case)), open(inner, "w"))
+            rc, out = common.sh([hb, "-seed", str(ctx.seed), "-tier", ctx.tier, "-out", d, "-replay", inner,
+                                 "-sse-pats", table_pats("sse_flush_patterns"), "-chunk-pats", table_pats("chunk_flush_patterns")], timeout=300)
+            if rc != 0:
+                return True
+            m2 = json.load(open(os.path.join(d, "meta.json")))
+            shards = [sh for sh in m2["shards"] if not sh.startswith("ycases_")]
+            r2 = ctx.coq_eval_shards(GROUP, d, shards, idents=("M", "P", "A"), timeout=600)
+            if r2["_errors"] or any(ctx.parse_nlist((r2.get(sh) or {}).get("P")) for sh in shards):
+                return True
+        return False
+
     # decide (DESIGN.md 2.2): group failures by input class
     by_key = {}
     for kind, case in prop_bad:
         by_key.setdefault((classify(kind, case), kind), []).append((kind, case))
     for (key, kind), lst in sorted(by_key.items()):
         kc = smallest(lst)
+        if kind in ("ecases", "xcases", "tcases") and len(lst) == 1 and not ctx.is_known(key) and not fails_alone(kind, kc[1]):
+            rp = ctx.write_replay("not-reproduced-" + key, dict(property=ctx.pid, key=key, replay=dict(kind=kind, case=kc[1].get("case", kc[1]))))
+            ctx.notes.append({"intermittent_not_reproduced_in_3_solo_runs": key, "replay": rp,
+                              "observed": "done=%s closed=%s timed_out=%s tail=%r" % (kc[1].get("done"), kc[1].get("closed"),
+                                                                                       kc[1].get("timed_out"), kc[1].get("tail", "")[-80:])})
+            ctx.log("not reproduced alone (3 runs), noted only:", key, rp)
+            continue
         diag = ""
         if kind in ("ecases", "xcases"):
             diag = " [done=%s closed=%s timed_out=%s err=%r tail=%r]" % (
